@@ -8,3 +8,7 @@ import SvModel.Gen.NoexceptFlags
 import SvModel.Spec.L0Compare
 import SvModel.Properties.C14
 import SvModel.Properties.C16
+import SvModel.Spec.L0
+import SvModel.Api
+import SvModel.Proofs.Examples
+import SvModel.Properties.Core
